@@ -1,9 +1,12 @@
 package hist
 
 import (
+	"encoding/hex"
 	"fmt"
 	"math/big"
 	"math/rand"
+	"os"
+	"strings"
 
 	pb "github.com/xuperchain/xupercore/bcs/ledger/xledger/xldgpb"
 	"github.com/xuperchain/xupercore/protos"
@@ -129,5 +132,21 @@ func (s *SUT) BlockAttempt(rng *rand.Rand, cl string) (Op, []Problem) {
 		return op, []Problem{{Sig: "block|admitted-inadmissible|" + cl,
 			Detail: fmt.Sprintf(via+" accepted block %x whose transaction #%d (%x) is inadmissible at its turn: %s", b.Blockid, bad, b.Transactions[bad].Txid, why)}}
 	}
-	return op, s.compareSnap(before, "play:blockattempt")
+	ps := s.compareSnap(before, "play:blockattempt")
+	if len(ps) > 0 && os.Getenv("VERIF_DEBUG") != "" {
+		for k := range before.obs.M {
+			if strings.HasPrefix(k, "pool:") {
+				id, _ := hex.DecodeString(k[5:])
+				x, err := s.N.Ledger.QueryTransaction(id)
+				if err == nil {
+					hb, _ := s.N.Ledger.QueryBlockHeader(x.Blockid)
+					fmt.Fprintf(os.Stderr, "debug: pool tx %s is in ledger block %x (junk=%v) inTrunk=%v height=%d; stateTip=%x\n", k[5:13], x.Blockid[:4], string(x.Blockid) == string(b.Blockid), hb.GetInTrunk(), hb.GetHeight(), s.N.StateTip()[:4])
+				}
+			}
+		}
+		for i, x := range b.Transactions {
+			fmt.Fprintf(os.Stderr, "debug: junk tx %d = %x\n", i, x.Txid[:4])
+		}
+	}
+	return op, ps
 }
